@@ -142,7 +142,13 @@ class FlowFields(ImageBatch):
             and data.shape[0] == len(grid)
             and data.shape[1] == grid[0].ndim
             and data.shape[2:] == grid[0].shape
-        ) or (grid is not None and not grid and data.ndim >= 4 and data.shape[0] == 0):
+        ) or (
+            grid is not None
+            and not grid
+            and data.ndim >= 4
+            and data.shape[0] == 0
+            and data.shape[1] == data.ndim - 2
+        ):
             if func in (torch.clone, Tensor.clone):
                 grid = [g.clone() for g in grid]
             if isinstance(data, cls):
